@@ -103,7 +103,9 @@ ImplThird(l, D) == "third_party_by_substring" \in D /\ (\E i \in 1..Len(l.above)
 
 \* how the client NAMES the root: by its canonical path, through a symbolic link that lives elsewhere (a plainly named
 \* directory), or by a path with a `..` component.  Layer R does not depend on it: the outcome relative to the root is the same.
-Vias == {"direct", "symlink", "dotdot"}
+\* symlink_ign: the symbolic link itself lives in a directory with an IGNORED name (the spelled path then carries an ignored
+\* component ABOVE the root, which must not matter)
+Vias == {"direct", "symlink", "symlink_ign", "dotdot"}
 VARIABLES loc, ex, fm, via
 vars == <<loc, ex, fm, via>>
 Init == loc \in RootLocs /\ ex \in ExcludeSets /\ fm \in FaultModes /\ via \in Vias /\ (via # "direct" => fm = "none")
